@@ -590,6 +590,14 @@ class Executor:
             exp = self.oracle.rate(self.cid, self.stored_pipeline(),
                                    self.stored_settings(), rargs)
             ev["expect"] = exp if isinstance(exp, str) else "raise"
+        elif not ev["pseudo"] and pre["hash"] == "none" \
+                and not pre.get("badpipe", False):
+            # no fit at all: the value of a fresh curve in the same state
+            exp = self.oracle.rate_unfitted(
+                self.cid, self.stored_pipeline(), rargs,
+                settings=self.stored_settings(),
+                applied="preprocessing" in self.idnt.fit_properties)
+            ev["expect"] = exp if isinstance(exp, str) else "raise"
         # what the rating has to be combined from: the binary exclusion
         # criteria and the continuous features of THIS object (public
         # feature API, same feature selection as the rater)
